@@ -135,9 +135,15 @@ def gen(seed, tier):
         world['dynamic'] = []
         world['prebind'] = []
         q = world['query']
-    return {'world': world, 'query': q, 'd': rng.choice((0, 7, 23)), 'L0': rng.choice((650, 1000, 3000, ['rel', 60], ['rel', 150])), 'held': rng.choice((True, True, True, False, False, 'chain', 'islice')),
+    plan = {'world': world, 'query': q, 'd': rng.choice((0, 7, 23)), 'L0': rng.choice((650, 1000, 3000, ['rel', 60], ['rel', 150])), 'held': rng.choice((True, True, True, False, False, 'chain', 'islice')),
             'proj': rng.choice(('index', 'index', 'to_python', 'nested')), 'registry': rng.random() < 0.5,
             'limits': 'window', 'proj_faults': 'all'}
+    if plan['held'] in ('chain', 'islice') and isinstance(plan['L0'], list):
+        # evaluate_bounded cannot close an iterator that has no close(): the wrapped query is released when the caller
+        # drops the wrapper, under the caller's own limit - which must then be high enough for the unwinding (with the
+        # bare generator evaluate_bounded does the closing itself, under the more generous of the two limits)
+        plan['L0'] = 1000
+    return plan
 
 
 def sample_view(plan):
